@@ -603,7 +603,8 @@ theorem reads_LAB (l : String) (h : CodeOK (.LAB l)) :
     parseLine (printCode (.LAB l)) = some (.label l) ∧ '\n' ∉ (l ++ ":").toList := by
   have hl := h.defs l rfl
   refine ⟨?_, ?_, ?_, ?_⟩
-  · apply String.ext; simp [printCode, String.toList_append]
+  · show "\n" ++ l ++ ":" = _
+    apply String.ext; simp [String.toList_append]
   · have := parseLine_label (raw := l ++ ":") (l := l.toList) (by simp [String.toList_append]) hl
     rwa [String.ofList_toList] at this
   · have := parseLine_nl_label (raw := printCode (.LAB l)) (l := l.toList)
@@ -674,9 +675,9 @@ theorem codePLines_instr {c : Code} {i : Instr} (h : c.toInstr = some i) : codeP
 theorem printCode_lines (c : Code) : printCode c = "\n".intercalate (codeLines c) := by
   by_cases h : ∃ l, c = .LAB l
   · obtain ⟨l, rfl⟩ := h
+    show "\n" ++ l ++ ":" = "\n".intercalate ["", l ++ ":"]
     apply String.ext
-    simp [codeLines, printCode, String.toList_intercalate, String.toList_append, List.intercalate,
-      List.intersperse]
+    simp [String.toList_intercalate, String.toList_append, List.intercalate, List.intersperse]
   · rw [codeLines_of_not_lab (fun l e => h ⟨l, e⟩)]
     apply String.ext
     simp [String.toList_intercalate, List.intercalate, List.intersperse]
